@@ -104,22 +104,39 @@ example :
     (run cfg (fun _ => true) (fun _ _ _ => some 7) {} [mk "a", mk "../x"]).2.loads = ["/srv/configs/a".toList] := by
   decide
 
-/-- **Anything else yields the fixed reply.** In multi-config mode, a request naming an id the regex
-    matches, whose key is not cached, is answered with the 'could not load' reply, nothing is loaded for
-    it or after it, and the cache is unchanged. -/
+/-- **Anything else yields the fixed reply — including the cache-hit path.** Multi-config mode, from the
+    empty server state: after any request sequence `pre`, a request whose (defaulted) id list contains an
+    id the regex matches is answered with the fixed 'could not load' reply and changes neither the cache
+    nor the datastore.  (Rejected and accepted id lists never share a cache key: `cacheKey_bad` /
+    `cacheKey_good`, which use that the key separator occurs in no class or literal of the regex.) -/
+theorem bad_id_never_served {M : Type} (cfg : Cfg) (hs : cfg.single = none) (pathOk : Str → Bool) (gen : Gen M)
+    (pre : List (Req M)) (r : Req M) (ids? : Option (List Str)) (ids : List Str)
+    (hv : validate r = some ids?) (hr : resolveIds cfg ids? = some ids) (hbad : ∃ id ∈ ids, bad id = true) :
+    let s := (run cfg pathOk gen {} pre).2
+    (step cfg pathOk gen s r).1 = .couldNotLoad ids ∧ (step cfg pathOk gen s r).2.cache = s.cache ∧
+    (step cfg pathOk gen s r).2.store = s.store := by
+  intro s
+  exact step_bad cfg hs pathOk gen s r (run_keysGood cfg hs pathOk gen pre {} (by simp [KeysGood])) ids? ids hv hr hbad
+
+/-- non-vacuity of `bad_id_never_served`: such a request exists (also through `config_ids` and the default id). -/
+example :
+    let cfg : Cfg := { root := "/srv/configs".toList, cwd := "/".toList, single := none, default := some "../y".toList, hasStore := true, streaming := false }
+    let r1 : Req Nat := { configId := none, configIds := some ["a".toList, "../x".toList], threadId := none, context := none, messages := [], stream := false }
+    let r2 : Req Nat := { configId := none, configIds := none, threadId := none, context := none, messages := [], stream := false }
+    (validate r1 = some (some ["a".toList, "../x".toList]) ∧ resolveIds cfg (some ["a".toList, "../x".toList]) = some ["a".toList, "../x".toList] ∧ bad "../x".toList = true) ∧
+    (validate r2 = some none ∧ resolveIds cfg none = some ["../y".toList] ∧ bad "../y".toList = true) := by
+  decide
+
+/-- one call of `_get_rails` on a cache miss (any mode-independent cache): an id the regex matches ⇒ error, cache unchanged. -/
 theorem bad_id_fixed_reply (cfg : Cfg) (hs : cfg.single = none) (pathOk : Str → Bool) (cache : Cache) (ids : List Str)
-    (hmiss : lookup (cacheKey ids) cache = none) (hbad : ∃ id ∈ ids, bad id = true) :
-    (∃ e, (getRails cfg pathOk cache ids).res = .error e) ∧ (getRails cfg pathOk cache ids).cache = cache := by
-  unfold getRails
-  rw [hmiss]
-  simp only [loadFresh, effectiveIds, hs]
-  cases hr : (loadAll cfg.base pathOk ids).2 with
-  | error e => exact ⟨⟨e, rfl⟩, rfl⟩
-  | ok u =>
-    obtain ⟨id, hid, hb⟩ := hbad
-    have := loadAll_ok_all_good pathOk ids hr id hid
-    rw [this] at hb
-    exact Bool.noConfusion hb
+    (hk : KeysGood cache) (hbad : ∃ id ∈ ids, bad id = true) :
+    (∃ e, (getRails cfg pathOk cache ids).res = .error e) ∧ (getRails cfg pathOk cache ids).cache = cache :=
+  getRails_bad cfg hs pathOk cache ids hk hbad
+
+/-- The ids that do get through name real entries: a path inside an `AbsNorm` root is itself `AbsNorm`
+    (no `.`/`..`/empty component is left in it), so lexical containment is containment of the names. -/
+theorem inside_is_normalised (base p : Str) (hb : AbsNorm base) (h : Inside base p) : AbsNorm p :=
+  inside_absNorm hb h
 
 /-! ## Part 2 — threads -/
 
